@@ -140,6 +140,10 @@ pub struct Profile {
     pub extra: usize,
     /// pattern-less (options only), `*` and single-character patterns
     pub tiny_patterns: bool,
+    /// `||*...` rules (hostname anchor with an empty / wildcard hostname). Like non-ASCII URLs only
+    /// for checks whose oracle indexes the same list the same way: the token after the `*` is
+    /// indexed although the wildcard can glue other characters to it (index completeness, C01).
+    pub hostname_wildcards: bool,
     /// raw non-ASCII letters in probe URLs. Only for checks whose oracle indexes the *same* rule
     /// list the same way (C05, C08): the URL tokenizer is Unicode-aware while the separator `^` is
     /// byte-based, so whether a rule is found for such a URL depends on its bucket (C01).
@@ -227,13 +231,21 @@ pub fn gen_pattern(r: &mut Rng, p_regexish: u32) -> (String, bool) {
 }
 
 pub fn gen_pattern_t(r: &mut Rng, p_regexish: u32, tiny: bool) -> (String, bool) {
+    gen_pattern_h(r, p_regexish, tiny, false)
+}
+
+pub fn gen_pattern_h(r: &mut Rng, p_regexish: u32, tiny: bool, hostwild: bool) -> (String, bool) {
     // returns (pattern, is_complete_regex)
     let h = pick_s(r, HOSTS);
     let s1 = pick_s(r, SEGS);
     let s2 = pick_s(r, SEGS);
     let e = pick_s(r, EXTS);
     if r.chance(p_regexish) {
-        match r.below(13) {
+        match r.below(if hostwild { 16 } else { 13 }) {
+            // hostname-anchored rules whose hostname part is empty or a wildcard
+            13 => (format!("||*/{}/{}", s1, s2), false),
+            14 => (format!("||*{}^", s1), false),
+            15 => (format!("||*.{}/{}*", r.pick(DOMAINS), s1), false),
             9 => (format!("{}*{}|", s1, if e.is_empty() { ".gif".into() } else { e }), false),
             10 => (format!("|https://{}/*{}", h, s1), false),
             11 => (format!("/{}*{}|", s1, if e.is_empty() { ".js".into() } else { e }), false),
@@ -249,6 +261,12 @@ pub fn gen_pattern_t(r: &mut Rng, p_regexish: u32, tiny: bool) -> (String, bool)
             _ => (format!("/{}/{}*", s1, s2), false),
         }
     } else {
+        if r.chance(6) {
+            // literal text that is special in a regex: exercises escaping when such a rule is fused
+            // or combined with wildcards
+            let sp = *r.pick(&["\\d", "\\k", "+", "?", "(1)", "[1]", "{2}", ".", "\\"]);
+            return (format!("/{}/{}{}", s1, s2, sp), false);
+        }
         match r.below(if tiny { 13 } else { 10 }) {
             // pattern-less rules (options only) and single-character patterns
             10 => (String::new(), false),
@@ -281,7 +299,7 @@ fn gen_domain_opt(r: &mut Rng) -> String {
 }
 
 pub fn gen_net_rule(r: &mut Rng, p: &Profile) -> NetRule {
-    let (mut pat, complete) = gen_pattern_t(r, p.p_regexish, p.tiny_patterns);
+    let (mut pat, complete) = gen_pattern_h(r, p.p_regexish, p.tiny_patterns, p.hostname_wildcards);
     let mut opts: Vec<String> = vec![];
     let mut exc = r.chance(25);
     // modifier (at most one)
@@ -351,7 +369,12 @@ pub fn gen_net_rule(r: &mut Rng, p: &Profile) -> NetRule {
         opts.push("match-case".to_string());
     }
     let taggable = modifier == 0 || modifier == 2 || p.tag_on_modifiers;
-    let tag = if taggable && r.chance(p.p_tag) { Some(pick_s(r, TAGS)) } else { None };
+    let tag = if taggable && r.chance(p.p_tag) {
+        // rarely the degenerate but legal empty tag value (`$tag=`)
+        Some(if r.chance(4) { String::new() } else { pick_s(r, TAGS) })
+    } else {
+        None
+    };
     NetRule { exc, pat, opts, tag }
 }
 
@@ -587,7 +610,7 @@ pub fn gen_world(seed: u64, p: &Profile) -> World {
                     }
                 }
                 2 => {
-                    let (pat, _complete) = gen_pattern_t(&mut r, p.p_regexish, p.tiny_patterns);
+                    let (pat, _complete) = gen_pattern_h(&mut r, p.p_regexish, p.tiny_patterns, p.hostname_wildcards);
                     if !twin.opts.iter().any(|o| o == "match-case") {
                         twin.pat = pat;
                     }
@@ -610,7 +633,7 @@ pub fn gen_world(seed: u64, p: &Profile) -> World {
             let k = r.range(1, 3);
             for _ in 0..k {
                 let mut sib = nr.clone();
-                let (pat, complete) = gen_pattern_t(&mut r, if regexish { 100 } else { 0 }, p.tiny_patterns);
+                let (pat, complete) = gen_pattern_h(&mut r, if regexish { 100 } else { 0 }, p.tiny_patterns, p.hostname_wildcards);
                 if complete {
                     continue;
                 }
@@ -643,12 +666,18 @@ pub fn gen_world(seed: u64, p: &Profile) -> World {
     // occasionally one large group of rules with identical options in one bucket, with sizes around
     // powers of two (chunking / batching boundaries)
     if r.chance(4) {
-        let size = *r.pick(&[31usize, 32, 33, 63, 64, 65, 66, 127, 128, 129, 130]);
+        let wild = r.chance(35);
+        let size = if wild && r.chance(40) { *r.pick(&[290usize, 330, 400]) } else { *r.pick(&[7usize, 8, 9, 31, 32, 33, 63, 64, 65, 66, 127, 128, 129, 130]) };
         let seg = pick_s(&mut r, SEGS);
         let opts: Vec<String> = if r.chance(50) { vec![] } else { vec![pick_s(&mut r, &["script", "image", "3p"])] };
         let exc = r.chance(20);
         for k in 0..size {
-            rules.push(Rule { spec: RuleSpec::Net(NetRule { exc, pat: format!("/{}/u{:03}", seg, k), opts: opts.clone(), tag: None }), perm: 0 });
+            let pat = if wild { format!("/{}/*zone{}-*.gif", seg, k) } else if k == 3 && r.chance(60) {
+                // a member with regex-special text that still lands in the group's bucket (its only
+                // indexable token is the shared one)
+                format!("/{}/{}", seg, r.pick(&["\\d", "\\k", "(", "[a", "\\w+"]))
+            } else { format!("/{}/u{:03}", seg, k) };
+            rules.push(Rule { spec: RuleSpec::Net(NetRule { exc, pat, opts: opts.clone(), tag: None }), perm: 0 });
         }
     }
     // degenerate lists: nothing at all, cosmetic rules only, tagged network rules only
@@ -777,7 +806,8 @@ pub fn url_for_pattern(r: &mut Rng, pat: &str) -> Option<String> {
     if pat.is_empty() || pat == "*" || (pat.len() > 1 && pat.starts_with('/') && pat.ends_with('/') && !pat[1..pat.len() - 1].chars().all(|c| c.is_ascii_alphanumeric() || c == '/')) {
         return None;
     }
-    let fill = |s: &str| -> String { s.replace('*', "x1").replace('^', "/") };
+    // (`\d` is literal text in a plain pattern; a digit there distinguishes literal from regex reading)
+    let fill = |s: &str| -> String { s.replace('*', "x1").replace('^', "/").replace("\\d", "7").replace("\\w+", "abc") };
     let right = pat.ends_with('|');
     let core = pat.trim_end_matches('|');
     let url = if let Some(rest) = core.strip_prefix("||") {
